@@ -5,6 +5,9 @@
 enum { HX_GET = 1, HX_SET, HX_INIT, HX_PAYLOAD };
 typedef struct { const char* name; int kind; uint64_t (*fn)(void* pdu, uint64_t a, uint64_t b); } hx_entry;
 extern const hx_entry* const hx_all[];
+/* deprecated entry points: rc = fn(pdu, a, b, result pointer or NULL) */
+typedef struct { const char* name; int64_t (*fn)(void* pdu, uint64_t a, uint64_t b, uint64_t* res); } hx_lentry;
+extern const hx_lentry* const hx_lall[];
 /* extension commands (message builders, VSS codec, ...): return 1 if handled */
 int hx_ext(int argc, char** argv);
 /* helpers shared with the extensions */
